@@ -19,6 +19,9 @@ type zvC24Case struct {
 	IBGP     bool   `json:"ibgp"`
 	RemoteAS uint32 `json:"remote_as"`
 	Order    string `json:"incoming_arrives"` // before-open | after-open-sent
+	// Stall: the local speaker's writes on that connection ("dial" | "accept") block (full send buffer) from the moment the
+	// remote OPENs are sent until both remote handshakes have got as far as they can; then the writes complete
+	Stall string `json:"writes_stall_on,omitempty"`
 	Schedule []int  `json:"schedule"`
 	Bound    int    `json:"preemption_bound"`
 }
@@ -93,11 +96,24 @@ func zvC24Explore(r *vh.Run, c zvC24Case, only []int) {
 			open.AS = uint16(c.RemoteAS)
 			open.Caps = []zvwCap{zvwCapASN4(c.RemoteAS)}
 		}
+		var stalled *zvConn
+		switch c.Stall {
+		case "dial":
+			stalled = c1
+		case "accept":
+			stalled = c2
+		}
+		if stalled != nil {
+			stalled.setStall(true)
+		}
 		vsched.SetExploring(true)
 		speak := func(conn *zvConn) func() {
 			return func() {
 				vsched.Yield()
 				conn.deliver(open.bytes())
+				if conn == stalled {
+					return // the local KEEPALIVE cannot be seen yet: the remote speaker answers it after the stall
+				}
 				vsched.Yield()
 				conn.deliver(zvwKeepalive())
 			}
@@ -106,6 +122,14 @@ func zvC24Explore(r *vh.Run, c zvC24Case, only []int) {
 		h2 := vsched.GoNamed("remote-on-accepted", speak(c2))
 		vsched.Join(h1, h2)
 		vsched.Settle()
+		if stalled != nil {
+			stalled.setStall(false)
+			vsched.Settle()
+			if !stalled.isClosed() {
+				stalled.deliver(zvwKeepalive())
+			}
+			vsched.Settle()
+		}
 		vsched.SetExploring(false)
 		vsched.Advance(10 * time.Millisecond)
 		for _, f := range p.fsms {
@@ -155,6 +179,9 @@ func zvC24Explore(r *vh.Run, c zvC24Case, only []int) {
 			idc = "equal"
 		}
 		sig := func(clause string, kv ...string) map[string]string {
+			if c.Stall != "" {
+				kv = append(kv, "stall", c.Stall)
+			}
 			return vh.Sig(append([]string{"clause", clause, "ids", idc, "order", c.Order}, kv...)...)
 		}
 		if x.Status != vsched.Completed {
@@ -221,7 +248,7 @@ func TestVerifC24(t *testing.T) {
 		bound = 3
 	}
 	r.Rule(fmt.Sprintf("a peer with a dialled and an accepted connection; the remote speaker sends OPEN and KEEPALIVE on both; every schedule with at most %d deviations from the default schedule (any context switch other than the default one counts) of the two remote handshakes with the FSM goroutines, "+
-		"x {local id < remote, local id > remote, equal ids with local AS < / > remote AS} x {iBGP, eBGP} x {incoming connection before / after the local OPEN}; invariant at every FSM state change and final-state oracle", bound))
+		"x {local id < remote, local id > remote, equal ids with local AS < / > remote AS} x {iBGP, eBGP} x {no stall, the local writes on the dialled / on the accepted connection block during the handshakes (full send buffer) and complete afterwards}; invariant at every FSM state change and final-state oracle", bound))
 	r.Require("executions")
 	if r.IsReplay() {
 		var c zvC24Case
@@ -239,6 +266,13 @@ func TestVerifC24(t *testing.T) {
 		}
 		cases = append(cases, zvC24Case{RemoteID: zvRouterID, IBGP: false, RemoteAS: zvRemoteAS, Order: order, Bound: bound}) // equal ids, remote AS larger
 		cases = append(cases, zvC24Case{RemoteID: zvRouterID, IBGP: false, RemoteAS: 64900, Order: order, Bound: bound})      // equal ids, local AS larger
+	}
+	// the same with the local speaker's writes stalling on one of the connections during the handshakes
+	for _, c := range append([]zvC24Case{}, cases...) {
+		for _, st := range []string{"dial", "accept"} {
+			c.Stall = st
+			cases = append(cases, c)
+		}
 	}
 	for i, c := range cases {
 		if !r.Mine(i) {
